@@ -2,6 +2,7 @@ package rules
 
 import (
 	"fmt"
+	"sort"
 	"go/constant"
 	"go/token"
 	"go/types"
@@ -131,7 +132,7 @@ func c11L1(r *Run, rep *core.Report) {
 			}
 		}
 	}
-	rep.MinCount("C11.L1", "explored core exits", nExits, 30)
+	rep.MinCount("C11.L1", "explored core exits", nExits, 20)
 	rep.MinCount("C11.L1", "distinct return classes", len(classes), 5)
 }
 
@@ -140,6 +141,41 @@ func c11L1(r *Run, rep *core.Report) {
 // the constant delete flag.
 func adapterSummary(cl *ssa.Function) string {
 	res := map[string]bool{}
+	// for a method used as a method value the receiver plays the part of the captured variables and the
+	// adapter's own parameters start after it
+	var recv *ssa.Parameter
+	first := 0
+	if cl.Signature.Recv() != nil && len(cl.Params) > 0 {
+		recv = cl.Params[0]
+		first = 1
+	}
+	captured := func(v ssa.Value) bool {
+		switch x := v.(type) {
+		case *ssa.FreeVar:
+			return true
+		case *ssa.UnOp:
+			if _, ok := x.X.(*ssa.FreeVar); ok {
+				return true
+			}
+			if recv != nil {
+				root := core.Addr(x.X).Root
+				if root == ssa.Value(recv) {
+					return true
+				}
+				// value receiver spilled to a local
+				if al, isA := root.(*ssa.Alloc); isA {
+					if st := uniqueStore(al); st != nil && st.Val == ssa.Value(recv) {
+						return true
+					}
+				}
+			}
+		case *ssa.Field:
+			return recv != nil && x.X == ssa.Value(recv)
+		case *ssa.FieldAddr:
+			return recv != nil && x.X == ssa.Value(recv)
+		}
+		return false
+	}
 	core.Instrs(cl, func(in ssa.Instruction) {
 		ret, ok := in.(*ssa.Return)
 		if !ok || len(ret.Results) != 2 {
@@ -148,18 +184,18 @@ func adapterSummary(cl *ssa.Function) string {
 		role := "other"
 		switch x := ret.Results[0].(type) {
 		case *ssa.Parameter:
-			if len(cl.Params) > 0 && x == cl.Params[0] {
+			if len(cl.Params) > first && x == cl.Params[first] {
 				role = "old"
 			}
-		case *ssa.UnOp:
-			if _, ok := x.X.(*ssa.FreeVar); ok {
-				role = "arg"
-			}
-		case *ssa.FreeVar:
-			role = "arg"
 		case *ssa.Call:
-			if core.Callee(x) == nil {
+			if core.Callee(x) == nil && captured(x.Call.Value) {
 				role = "call"
+			} else if core.Callee(x) == nil {
+				role = "call"
+			}
+		default:
+			if captured(ret.Results[0]) {
+				role = "arg"
 			}
 		}
 		del := "?"
@@ -172,6 +208,7 @@ func adapterSummary(cl *ssa.Function) string {
 	for k := range res {
 		out = append(out, k)
 	}
+	sort.Strings(out)
 	if len(out) == 1 {
 		return out[0]
 	}
@@ -183,11 +220,7 @@ func adapterSummary(cl *ssa.Function) string {
 func c11L2(r *Run, rep *core.Report) {
 	nSlot, nChain := 0, 0
 	for _, mm := range r.M.Maps {
-		fns := []*ssa.Function{mm.Methods["Load"], mm.Core, mm.Copy, mm.Methods["Range"], mm.Append}
-		if mm.IsEmpty != nil {
-			fns = append(fns, mm.IsEmpty)
-		}
-		for _, f := range fns {
+		for _, f := range mapFuncs(r, mm) {
 			rep.Fn(fn(f))
 			for _, l := range naturalLoops(f) {
 				// slot loops: an integer induction variable that indexes a bucket array
